@@ -295,6 +295,29 @@ def r3_key_derivation(ctx):
             r.ok(f.root + "|kdf", cfg.loc(body), "goes through hash_password (Argon2id / Balloon)", work=1)
         else:
             r.violation(f.root + "|kdf", cfg.loc(body), "derive no longer calls the password hashing function", work=1)
+    # call-site half: every caller hands the vault's seed on (a literal `None`
+    # makes the key independent of the seed although derive itself is intact)
+    DER = re.compile(r"key_derivation::Deriver(<.*>)?::derive$|crypto::private_key::AccessKey::into_private$")
+    ncall = 0
+    seen_k = {}
+    for (cf, cb, ci, ct) in sorted(idioms.callers_of(ws, DER, exclude_crates=idioms.TEST_CRATES), key=lambda x: (x[0].root, x[1].path, x[2])) if False else idioms.callers_of(ws, DER, exclude_crates=idioms.TEST_CRATES):
+        if len(ct.get("args") or []) != 4:
+            continue
+        ncall += 1
+        cfg_ = FlowGraph(ws, cf)
+        ssl = cfg_.back_from_operand(cb, ct["args"][3])
+        src = (any(cname(x) in ("seed", "generate_seed") for _b, _i, x in ssl.calls)
+               or bool(ssl.reads_field("seed"))
+               or any(cfg.place_fields(p)[-1:] == ["seed"] for _b, p in ssl.reads)
+               or any(isinstance(key, int) and (bb.vars.get(str(key)) == "seed") for bb in cf.bodies for (bp, key) in ssl.nodes if bp == bb.path))
+        seen_k[(cf.root, cname(ct))] = seen_k.get((cf.root, cname(ct)), 0) + 1
+        k = "%s|seed-handed-to:%s#%d" % (cf.root, cname(ct), seen_k[(cf.root, cname(ct))])
+        if src:
+            r.ok(k, cfg.loc(cb, ci), "the seed argument comes from the vault's seed / the caller's seed", work=len(ssl.nodes))
+        else:
+            r.violation(k, cfg.loc(cb, ci), "`%s` is called with a seed argument that does not come from the vault's seed (a constant None?): the key no longer depends on the seed, two vaults with the same password and salt share a key" % cname(ct), work=len(ssl.nodes))
+    if ncall < 6:
+        r.anchor_missing("callers of Deriver::derive / AccessKey::into_private (found %d, confirmed 6 by hand)" % ncall)
     sym = ws.find_fns(r"^sos_vault::vault::Vault::symmetric$")
     if sym:
         names = {cname(t) for _b, _i, t in sym[0].calls()}
